@@ -99,12 +99,15 @@ type mailItem struct {
 //go:norace
 func (s *Sim) post(it *mailItem) {
 	n := len(s.mail)
-	bigger := make([]*mailItem, n+1)
-	for i := 0; i < n; i++ {
-		bigger[i] = s.mail[i]
+	if n == cap(s.mail) {
+		bigger := make([]*mailItem, n, 2*n+8)
+		for i := 0; i < n; i++ {
+			bigger[i] = s.mail[i]
+		}
+		s.mail = bigger
 	}
-	bigger[n] = it
-	s.mail = bigger
+	s.mail = s.mail[:n+1]
+	s.mail[n] = it
 }
 
 //go:norace
@@ -233,12 +236,15 @@ func (s *Sim) addWaiter(chans []unsafe.Pointer) *chanWaiter {
 		}
 	}
 	n := len(s.waiters)
-	bigger := make([]*chanWaiter, n+1)
-	for i := 0; i < n; i++ {
-		bigger[i] = s.waiters[i]
+	if n == cap(s.waiters) {
+		bigger := make([]*chanWaiter, n, 2*n+8)
+		for i := 0; i < n; i++ {
+			bigger[i] = s.waiters[i]
+		}
+		s.waiters = bigger
 	}
-	bigger[n] = w
-	s.waiters = bigger
+	s.waiters = s.waiters[:n+1]
+	s.waiters[n] = w
 	return w
 }
 
